@@ -178,13 +178,14 @@ def build_cxx(flavor="asan", repo=None):
     return exe
 
 
-def build_win(repo=None):
-    """C18: process.windows.c + utf.windows.c from the working tree, UNCHANGED, against harness/win/windows.h (ASan+UBSan)."""
+def build_win(repo=None, tsan=False):
+    """C18: process.windows.c + utf.windows.c from the working tree, UNCHANGED, against harness/win/windows.h (ASan+UBSan;
+    tsan=True: ThreadSanitizer instead, for the "threads" mode)."""
     repo = repo or REPO
     srcs = [os.path.join(repo, "reproc/src/process.windows.c"), os.path.join(repo, "reproc/src/utf.windows.c")]
     hdrs = glob.glob(os.path.join(repo, "reproc/src/*.h")) + glob.glob(os.path.join(repo, "reproc/include/reproc/*.h"))
     hsrc = [os.path.join(HARNESS, "win/windrv.c"), os.path.join(HARNESS, "win/windows.h")]
-    key = tree_hash(srcs + hdrs + hsrc, "win")
+    key = tree_hash(srcs + hdrs + hsrc, "win-tsan" if tsan else "win")
     d = os.path.join(CACHE, key)
     exe = os.path.join(d, "windrv")
     if os.path.exists(exe):
@@ -192,9 +193,10 @@ def build_win(repo=None):
     tmp = d + ".tmp%d" % os.getpid()
     shutil.rmtree(tmp, ignore_errors=True)
     os.makedirs(tmp)
-    r = subprocess.run(["gcc", "-std=gnu99"] + SAN_FLAGS["asan"] + ["-D_WIN32", "-DNDEBUG", "-w", "-I" + os.path.join(HARNESS, "win"),
+    r = subprocess.run(["gcc", "-std=gnu99"] + (["-O1", "-g", "-fsanitize=thread"] if tsan else SAN_FLAGS["asan"]) +
+                       ["-D_WIN32", "-DNDEBUG", "-w", "-I" + os.path.join(HARNESS, "win"),
                         "-I" + os.path.join(repo, "reproc/include"), "-I" + os.path.join(repo, "reproc/src"), hsrc[0]] + srcs +
-                       ["-Wl,--wrap=calloc", "-o", os.path.join(tmp, "windrv")], capture_output=True, text=True)
+                       ["-Wl,--wrap=calloc", "-lpthread", "-o", os.path.join(tmp, "windrv")], capture_output=True, text=True)
     if r.returncode != 0:
         shutil.rmtree(tmp, ignore_errors=True)
         raise Infra("windows sources do not compile against the stub header:\n" + r.stderr[-3000:])
